@@ -98,10 +98,22 @@ def stepBasic (st : DState) (e : Sexp) : Option (DState × String) :=
       | .error e => "E:" ++ showUErr e)
   | _ => none
 
+def stepInfer (st : DState) (e : Sexp) : Option (DState × String) :=
+  let L := st.lang
+  match e with
+  | .list (.atom "infer" :: s :: args) => do
+    let s ← Sexp.schema? s
+    let args ← args.mapM Sexp.arg?
+    pure (st, runInfer L s args)
+  | _ => none
+
 def step (st : DState) (e : Sexp) : DState × String :=
   match stepBasic st e with
   | some r => r
-  | none => (st, "bad-op")
+  | none =>
+    match stepInfer st e with
+    | some r => r
+    | none => (st, "bad-op")
 
 partial def loop (h : IO.FS.Stream) (out : IO.FS.Stream) (st : DState) : IO Unit := do
   let line ← h.getLine
